@@ -55,8 +55,8 @@ def run_suite(pid, suite, tier, seed, binary):
         n, term = [(n, t) for i, n, t in cases if i == idx][0]
         agree = codes[idx] // 4 == 0
         findings.append(Finding(
-            "crash", "%s: the implementation PANICKED in case %d at step %d (%s); the model proves this step cannot panic%s" % (
-                suite["name"], idx, step, msg[:200], "" if agree else "; the trace before it already disagrees with the model at step %d" % (codes[idx] // 4 - 1)),
+            "crash", "%s: the implementation PANICKED in case %d at step %d (%s); %s%s" % (
+                suite["name"], idx, step, msg[:300], suite.get("crash_note", "the model proves this step cannot panic"), "" if agree else "; the trace before it already disagrees with the model at step %d" % (codes[idx] // 4 - 1)),
             dict(suite=suite["name"], harness_suite=suite["harness"], seed=seed, count=count, case=idx, keep=None, panic_at_step=step,
                  panic_message=msg, trace_before_panic=term[:20000], extra=suite.get("extra", {})),
             failing_input=True))
